@@ -18,7 +18,11 @@ pub fn all() -> Vec<PropDef> {
             id: "C06",
             rule: "registry models from G_reg (wild ids in all four compact classes, arbitrary Unicode, every def kind) and well-formed ones; oracle = hand-written V14 encoder/decoder; non-trivial = at least one type, distinct by hash of the encoding",
             assumptions: &["the reference codec in vcore/src/refcodec.rs transcribes the layout of the property statement", "parity-scale-codec's Compact/Vec/Option/String encodings are the SCALE ones"],
-            subs: crate::p_reg::c06_subs,
+            subs: || {
+                let mut v = crate::p_reg::c06_subs();
+                v.extend(crate::fuzz_entry::fuzz_subs("C06"));
+                v
+            },
             extra: Some(c06_extra),
         },
         PropDef {
@@ -39,28 +43,44 @@ pub fn all() -> Vec<PropDef> {
             id: "C10",
             rule: "well-formed registries (<= 10 and <= 64 entries; cycles, self loops, params-only edges arise from uniformly random references) x filter masks (random, sparse, all, none, singletons); oracle = reference BFS + substitution; non-trivial = the mask drops at least one entry and keeps one that has references, distinct by (encoding, mask)",
             assumptions: &["the filter closure is a pure function of the id"],
-            subs: crate::p_reg::c10_subs,
+            subs: || {
+                let mut v = crate::p_reg::c10_subs();
+                v.extend(crate::fuzz_entry::fuzz_subs("C10"));
+                v
+            },
             extra: None,
         },
         PropDef {
             id: "C12",
             rule: "operation sequences (0..60 ops) over small alphabets for Interner<String>, Interner<u8>, Interner<(u8,bool)> and for PortableRegistryBuilder (pool of 12 types, self-referential types via next_type_id, generated types); oracle = duplicate-free Vec with linear search compared after every step; non-trivial = a duplicate insertion after at least one other insertion, distinct by op list",
             assumptions: &[],
-            subs: crate::p_list::c12_subs,
+            subs: || {
+                let mut v = crate::p_list::c12_subs();
+                v.extend(crate::fuzz_entry::fuzz_subs("C12"));
+                v
+            },
             extra: None,
         },
         PropDef {
             id: "C14",
             rule: "arbitrary byte strings; valid encodings under every truncation, every single bit flip (<= 96 bytes), every compact replaced by class maxima / non-canonical forms, and generated fault sequences; arbitrary JSON-ish text; valid documents under key removal/rename/duplication, value retyping, deep nesting; oracle = no panic, peak live bytes <= 128 KiB + 256 x input, canonical re-encode of the consumed prefix, resolve total; non-trivial = input accepted or rejected after >= 4 bytes (JSON: syntactically valid), distinct by input hash",
             assumptions: &["the linear memory envelope 128 KiB + 256 x input length stands for 'proportional to the input'", "worker death (abort, stack overflow) is detected by the supervisor and attributed through side files"],
-            subs: crate::p_decode::c14_subs,
+            subs: || {
+                let mut v = crate::p_decode::c14_subs();
+                v.extend(crate::fuzz_entry::fuzz_subs("C14"));
+                v
+            },
             extra: None,
         },
         PropDef {
             id: "C18",
             rule: "exhaustive: every string over {r,#,a,Z,_,0,9,space,:,-,e-acute,NUL} up to length 6 (thorough: 7) as a single segment; proptest: segment lists of valid identifiers and near misses, module paths and replacement tables; oracle = explicit DFA for (r#)?[A-Za-z_][A-Za-z0-9_]* and list semantics; non-trivial = string of length >= 2 / list of >= 2 segments",
             assumptions: &["replacement tables have distinct search keys and no replacement equal to a search key", "module paths are non-empty and their segments contain no ':'"],
-            subs: crate::p_path::c18_subs,
+            subs: || {
+                let mut v = crate::p_path::c18_subs();
+                v.extend(crate::fuzz_entry::fuzz_subs("C18"));
+                v
+            },
             extra: Some(c18_extra),
         },
     ];
